@@ -49,7 +49,7 @@ static METAS: [Metadata<'static>; 6] = [
 
 // ---- values --------------------------------------------------------------------------------------
 #[derive(Clone, Debug, Serialize, Deserialize, PartialEq)]
-enum Val {
+pub enum Val {
     I64(i64),
     U64(u64),
     I128(String),
@@ -183,7 +183,7 @@ fn faithful(v: &Val, j: &J) -> Result<(), String> {
 
 // ---- case ---------------------------------------------------------------------------------------
 #[derive(Clone, Debug, Serialize, Deserialize, PartialEq)]
-struct SpanSpec {
+pub struct SpanSpec {
     /// 0..3: which span metadata
     meta: u8,
     /// initial values by field index (None = Empty)
@@ -194,7 +194,7 @@ struct SpanSpec {
     before_enter: u8,
 }
 #[derive(Clone, Debug, Serialize, Deserialize, PartialEq)]
-struct EventSpec {
+pub struct EventSpec {
     /// 0..3: which event metadata
     meta: u8,
     values: Vec<Option<Val>>,
@@ -206,7 +206,7 @@ struct EventSpec {
     record_first: Option<(u8, Vec<(u8, Val)>)>,
 }
 #[derive(Clone, Debug, Serialize, Deserialize)]
-struct Case {
+pub struct Case {
     flatten: bool,
     current_span: bool,
     span_list: bool,
@@ -506,6 +506,59 @@ fn val_strategy() -> BoxedStrategy<Val> {
     .boxed()
 }
 
+// ---------------------------------------------------------------------------------------------
+// coverage-guided stage (thorough tier): bytes -> case (hand-decoded through `arbitrary`)
+
+fn fuzz_val(u: &mut arbitrary::Unstructured<'_>) -> Val {
+    let text = |u: &mut arbitrary::Unstructured<'_>| -> String {
+        let n = u.int_in_range(0u8..=16).unwrap_or(0) as usize;
+        String::from_utf8_lossy(u.bytes(n.min(u.len())).unwrap_or(&[])).into_owned()
+    };
+    match u.int_in_range(0u8..=10).unwrap_or(0) {
+        0 => Val::I64(u.arbitrary().unwrap_or(0)),
+        1 => Val::U64(u.arbitrary().unwrap_or(0)),
+        2 => Val::I128(u.arbitrary::<i128>().unwrap_or(0).to_string()),
+        3 => Val::U128(u.arbitrary::<u128>().unwrap_or(0).to_string()),
+        4 => Val::F64(u.arbitrary().unwrap_or(0)),
+        5 => Val::Bool(u.arbitrary().unwrap_or(false)),
+        6 => Val::Str(text(u)),
+        7 => {
+            let n = u.int_in_range(0u8..=8).unwrap_or(0) as usize;
+            Val::Bytes(u.bytes(n.min(u.len())).unwrap_or(&[]).to_vec())
+        }
+        8 => Val::Err(text(u)),
+        9 => Val::Display(text(u)),
+        _ => Val::Debug(text(u)),
+    }
+}
+pub fn fuzz_case(data: &[u8]) -> Case {
+    let mut u = arbitrary::Unstructured::new(data);
+    let flags: u8 = u.arbitrary().unwrap_or(0);
+    let ov = |u: &mut arbitrary::Unstructured<'_>| if u.ratio(2u8, 3u8).unwrap_or(false) { Some(fuzz_val(u)) } else { None };
+    let nspans = u.int_in_range(0u8..=2).unwrap_or(0);
+    let mut spans = Vec::new();
+    for _ in 0..nspans {
+        let meta = u.int_in_range(0u8..=2).unwrap_or(0);
+        let init = (0..6).map(|_| ov(&mut u)).collect();
+        let nrec = u.int_in_range(0u8..=3).unwrap_or(0);
+        let records = (0..nrec).map(|_| (0..u.int_in_range(1u8..=2).unwrap_or(1)).map(|_| (u.int_in_range(0u8..=5).unwrap_or(0), fuzz_val(&mut u))).collect()).collect();
+        spans.push(SpanSpec { meta, init, records, before_enter: u.int_in_range(0u8..=2).unwrap_or(0) });
+    }
+    let nev = u.int_in_range(1u8..=3).unwrap_or(1);
+    let mut events = Vec::new();
+    for _ in 0..nev {
+        let meta = u.int_in_range(0u8..=2).unwrap_or(0);
+        let values = (0..5).map(|_| ov(&mut u)).collect();
+        let parent = if u.ratio(1u8, 5u8).unwrap_or(false) { Some(u.int_in_range(0u8..=2).unwrap_or(0)) } else { None };
+        let record_first = if u.ratio(1u8, 3u8).unwrap_or(false) { Some((u.int_in_range(0u8..=2).unwrap_or(0), (0..u.int_in_range(1u8..=2).unwrap_or(1)).map(|_| (u.int_in_range(0u8..=5).unwrap_or(0), fuzz_val(&mut u))).collect())) } else { None };
+        events.push(EventSpec { meta, values, parent, record_first });
+    }
+    Case { flatten: flags & 1 != 0, current_span: flags & 2 != 0, span_list: flags & 4 != 0, target: flags & 8 != 0, level: flags & 16 != 0, thread: flags & 32 != 0, spans, events }
+}
+pub fn fuzz_one(data: &[u8]) -> Outcome {
+    run_case(&fuzz_case(data))
+}
+
 struct C14;
 impl Property for C14 {
     type Case = Case;
@@ -516,7 +569,7 @@ impl Property for C14 {
         Isolation::Thread
     }
     fn cases(&self, tier: Tier) -> u32 {
-        tier.pick(30_000, 600_000)
+        tier.pick(100_000, 1_500_000)
     }
     fn strategy(&self, _tier: Tier) -> BoxedStrategy<Case> {
         let ov = || proptest::option::weighted(0.7, val_strategy());
@@ -543,6 +596,15 @@ impl Property for C14 {
 }
 
 fn main() {
+    // `--decode-fuzz FILE`: print the case a coverage-guided-stage input decodes to (used by
+    // ./check to turn a crash input into an ordinary replay file)
+    let a: Vec<String> = std::env::args().collect();
+    if a.len() == 3 && a[1] == "--decode-fuzz" {
+        let data = std::fs::read(&a[2]).expect("readable input");
+        println!("{}", serde_json::to_string(&fuzz_case(&data)).unwrap());
+        return;
+    }
+
     // parser self-test
     assert!(json::parse(r#"{"a":1,"a":2}"#).is_err());
     assert!(json::parse("{\"a\":\"\u{1}\"}").is_err());
